@@ -18,7 +18,7 @@ trv_core::install_clock_seam!();
 
 const Q: u64 = 10;
 
-type Svc = tower_resilience_cache::Cache<GatedInner, Req, u8, Resp>;
+type Svc = tower_resilience_cache::Cache<GatedInner, Req, trv_core::inner::WeakKey, Resp>;
 
 fn pname(p: EvictionPolicy) -> &'static str {
     match p {
@@ -53,7 +53,7 @@ impl CacheCfg {
     /// two service handles over one store: clones of one service (private store) or two
     /// services produced by one SharedCacheLayer
     fn build(&self, inner: trv_core::inner::Shared) -> (Svc, Svc) {
-        let mut b = CacheLayer::<Req, u8>::builder().max_size(self.max_size).eviction_policy(self.policy).key_extractor(|r: &Req| r.key);
+        let mut b = CacheLayer::<Req, trv_core::inner::WeakKey>::builder().max_size(self.max_size).eviction_policy(self.policy).key_extractor(|r: &Req| trv_core::inner::WeakKey(r.key));
         if let Some(t) = self.ttl {
             b = b.ttl(Duration::from_millis(t));
         }
@@ -356,7 +356,7 @@ impl SeqScenario for C10 {
                         g.script.push_back(Plan::after(20, Out::Ok));
                         g.default_plan = Plan::now(Out::Ok);
                     }
-                    let mut fail = |cands: &Vec<Model>, what: &str, viols: &mut Vec<Viol>| {
+                    let fail = |cands: &Vec<Model>, what: &str, viols: &mut Vec<Viol>| {
                         viols.push(Viol::new("overlapping_gets_mismatch", site, format!("{} at {}ms: {what}; reference cache {:?}", op_name(op), t0, cands.iter().map(|c| c.canon(t0, cfg.ttl)).collect::<Vec<_>>())));
                     };
                     let calls_now = |w: &World| w.inner.lock().unwrap().calls.len();
